@@ -240,6 +240,34 @@ func vpRule(name string) Rule {
 			w.flattenBytes(a[1], &in)
 			return concatBytes(w.C, w.hashUF("vpuf:"+w.mustStr(a[0], "uf name"), in, 8, false))
 		}
+	case "vpUFBytes":
+		// uninterpreted function from byte strings to n bytes: vpUFBytes(name, n, args...)
+		return func(w *W, fn *ssa.Function, a []Value) Value {
+			n := int(w.concInt(w.termOf(a[1]), true, "vpUFBytes length"))
+			var in []*smt.Term
+			if sl, ok := a[2].(SliceV); ok {
+				for _, part := range w.sliceValues(sl) {
+					ps := part.(SliceV)
+					// length-prefix each part so that different splits are different inputs
+					in = append(in, w.C.BVu(uint64(ps.Len), 8))
+					in = append(in, w.sliceBytes(ps)...)
+				}
+			}
+			return w.makeByteSlice(w.hashUF("vpufb:"+w.mustStr(a[0], "uf name"), in, n, false))
+		}
+	case "vpUFBytesInj":
+		return func(w *W, fn *ssa.Function, a []Value) Value {
+			n := int(w.concInt(w.termOf(a[1]), true, "vpUFBytes length"))
+			var in []*smt.Term
+			if sl, ok := a[2].(SliceV); ok {
+				for _, part := range w.sliceValues(sl) {
+					ps := part.(SliceV)
+					in = append(in, w.C.BVu(uint64(ps.Len), 8))
+					in = append(in, w.sliceBytes(ps)...)
+				}
+			}
+			return w.makeByteSlice(w.hashUF("vpufb:"+w.mustStr(a[0], "uf name"), in, n, true))
+		}
 	case "vpThorough":
 		return func(w *W, fn *ssa.Function, a []Value) Value { return w.C.Bool(w.H.Thorough) }
 	case "vpSymbolic":
